@@ -1,4 +1,4 @@
-#!/usr/bin/env python3
+#!/usr/bin/env python3-vt
 """C13 (E1 part): int2string for 8/16/32-bit types - ll2c + CBMC, one query per decade."""
 import sys, os
 sys.path.insert(0, os.path.join(os.path.dirname(os.path.abspath(__file__)), '..', '..', 'engine'))
@@ -19,9 +19,37 @@ def e1_units(tier, only=None):
     return [u]
 
 
+def e2_units(tier, only=None):
+    from e2 import E2Unit
+    shapes = []
+    variants = (0, 1, 2, 3)
+    for kind, nm, maxd in ((0, 'u64', 20), (1, 'i64+', 19), (2, 'i64-', 19)):
+        for d in range(1, maxd + 1):
+            for v in variants:
+                if tier == 'quick' and v >= 2 and d not in (1, 4, 10, 13, 19, 20):
+                    continue
+                shapes.append(('hx_i2s64', [d, kind, v], '%s/d%d/%s' % (nm, d, ('buffer', 'grouped-buffer', 'string', 'grouped-string')[v])))
+    if only:
+        shapes = [s for s in shapes if re.search(only, s[2])]
+    u_int = E2Unit('int2string_e2int', os.path.join(HERE, 'w_i2s_e2.cpp'), lib_srcs=LIB, shapes=shapes, timeout=300, validate_vectors=0, int_mode=True,
+                   bounds=dict(value='every 64-bit value of the decade', group_char='any byte', encoding='bit-vector terms decided over the integers with explicit wrap-around (E2-int)'))
+    # the same harness decided by bit-blasting on the short decades: cross-check of the integer encoding
+    bv = [s for s in shapes if re.search(r'/d[1-4]/(buffer|grouped-buffer)$', s[2])]
+    u_bv = E2Unit('int2string_e2bv', os.path.join(HERE, 'w_i2s_e2.cpp'), lib_srcs=LIB, shapes=[(a, b, 'bv:' + c) for (a, b, c) in bv], timeout=300, validate_vectors=6,
+                  bounds=dict(value='every 64-bit value of the decade (decades of <= 4 digits)', encoding='bit-vector (cross-check of E2-int)'))
+    return [u_int, u_bv]
+
+
 if __name__ == '__main__':
     import argparse
+    from e2 import run_e2
     ap = argparse.ArgumentParser(); ap.add_argument('--tier', default=os.environ.get('VERIF_TIER', 'quick')); ap.add_argument('--only')
     a = ap.parse_args()
-    rule = 'one obligation = (type, sign, digit count, plain/grouped): CBMC decides exact text/length/footprint/round-trip for every value of the decade and every group character'
-    sys.exit(run_units('C13', a.tier, e1_units(a.tier, a.only), rule, ['E1 covers 8/16/32-bit types; 64-bit and std::string variants: E2']))
+    rule = ('one obligation = (type, sign, digit count, variant): the solver decides exact text/length/footprint/round-trip for every value of the decade and every group character '
+            '(E1: CBMC on 8/16/32-bit types; E2-int: irsym with the bit-vector queries decided over the integers for the 64-bit types and the std::string variants)')
+    rep = Report('C13', a.tier)
+    run_units('C13', a.tier, e1_units(a.tier, a.only), rule, ['E1 covers the buffer variants of the 8/16/32-bit types'], rep=rep, finish=False)
+    run_e2('C13', a.tier, e2_units(a.tier, a.only), rule, ['E2-int: wrap-around semantics of every bit-vector operation are kept by explicit mod 2^k; cross-checked against bit-blasting on the short decades',
+                                                            'std::string variants of the 8/16/32-bit types are covered only through the shared convert() kernels'], rep=rep, finish=False,
+           classify=lambda v: v['msg'] if v['kind'] == 'assert' else v['kind'] + ': ' + re.sub(r'\d+', 'N', v['msg'])[:100])
+    sys.exit(rep.finish(rule))
